@@ -232,7 +232,13 @@ func zzC14(mode int) {
 
 	inner := &zzInner{}
 	w := &zzRW{hdr: http.Header{}}
-	req := &http.Request{Header: http.Header{}}
+	// the decision is about the credential alone: the HTTP method and whatever other headers the request carries
+	// (CORS preflight markers, forwarding headers, cookies) have no say in it
+	req := &http.Request{Method: vStringAmong("httpMethod", http.MethodGet, http.MethodPost, http.MethodOptions, http.MethodDelete, http.MethodHead,
+		http.MethodPut, http.MethodPatch, http.MethodConnect, http.MethodTrace, ""), Header: http.Header{}}
+	for _, h := range []string{"Access-Control-Request-Method", "Access-Control-Request-Headers", "Origin", "Cookie", "X-Forwarded-For", "Upgrade", "Proxy-Authorization", "X-Api-Key"} {
+		vMapPutIf(req.Header, h, []string{"x"}, vBool("hdr."+h))
+	}
 	if !vBool("noHeader") {
 		req.Header.Set("Authorization", hdr)
 	} else {
